@@ -221,7 +221,7 @@ JudgeLabwareOp(tr, T, ev) ==
        LET rb == Run(T, vol, TrackedComp(tr), ev.recs) IN rb.err = "" /\ rb.vol = post.vol),
     \* a well id that does not exist in the labware: the call raises and no pipetting record is emitted
     Cl("C08.badwell", P.ok /\ Len(P.ws) >= 1 /\ (\A i \in 1..Len(P.ws) : ~ValidWell(L.g, P.ws[i])),
-       ev.out # "ok" /\ PipRecs(ev.recs) = <<>>)
+       ev.out # "ok" /\ ev.recs = <<>>)
   }
 
 (***************************************************************************)
@@ -251,7 +251,7 @@ JudgeTransfer(tr, T, ev) ==
     Cl("C08.badwell", T.dev # "base" /\ trp.ok /\ Len(x) >= 1 /\ ValidMode(a.pby)
                       /\ ((\A i \in 1..Len(x) : ~ValidWell(T.lw[a.src].g, x[i].s)) \/ (\A i \in 1..Len(x) : ~ValidWell(T.lw[a.dst].g, x[i].d)))
                       /\ (\A i \in 1..Len(x) : x[i].v > 0),
-       ~ok /\ PipRecs(ev.recs) = <<>>),
+       ~ok /\ ev.recs = <<>>),
     Cl("C07.accept", T.dev # "base" /\ valid /\ sized /\ refok /\ ref.out = "ok", ok),
     Cl("C06.neverrefused", T.dev # "base" /\ valid /\ T.autosplit /\ refok /\ ref.out = "ok", ev.out # "invalidop"),
     Cl("C06.nosplit", T.dev # "base" /\ valid /\ ~sized /\ refok /\ ref.out = "invalidop", ev.out = "invalidop"),
@@ -317,7 +317,7 @@ JudgeDistribute(tr, T, ev) ==
     Cl("C06.distsize", a.vol > T.wlmax /\ IsTrough(gs), ev.out = "invalidop" /\ ev.recs = <<>> /\ post.vol = vol),
     Cl("C09.notrough", ~IsTrough(gs), ~ok /\ ev.recs = <<>> /\ post.vol = vol),
     Cl("C08.badwell", T.dev # "base" /\ IsTrough(gs) /\ n >= 1 /\ a.vol <= T.wlmax /\ (\A i \in 1..n : ~ValidWell(gd, ws[i])),
-       ~ok /\ rs = <<>>),
+       ~ok /\ ev.recs = <<>>),
     Cl("C04.distribute", T.dev # "base" /\ valid /\ ok,
        post.vol = ref.S.vol),
     Cl("C04.accept", T.dev # "base" /\ valid /\ a.vol <= T.wlmax /\ ref.out = "ok", ok),
